@@ -19,6 +19,8 @@ Lattices
   path      CAM path history: sequences of three positions 1 s apart (start, first step, jump), jump over
             {0, +-1, 1000, +-131071, +-131072, +-131073, +-200000, 5000000} x the same set (1e-7 deg, both axes), every CAM
             of the run judged against the positions of the CAMs sent before it
+  wrap      stationary VAM / CAM report sequences (periods 100 / 1000 ms) started {50 .. 5000} ms before a multiple of
+            65 536 ms and continued 8 s past it: generationDeltaTime of every message, no stall after the wrap
   denm      EmergencyVehicleApproachingService reports over hemispheres / altitude lattice, DEN requests over
             heading / confidence / speed
   gdt       generationDeltaTime reconstruction for every age 0..65 535 ms x receive instants around the wrap
@@ -680,6 +682,78 @@ def _path_job(args):
 
 
 # ------------------------------------------------------------------------------------------------------
+# stationary report sequences across a generationDeltaTime wrap: generation must not stall
+# ------------------------------------------------------------------------------------------------------
+WRAP_OFFSETS = [50, 100, 101, 250, 999, 1000, 5000]      # the run starts this many ms before TimestampIts mod 65536 wraps
+WRAP_AFTER_MS = 8000
+
+
+def _wrap_job(args):
+    """A station that does not move reports every ``period`` ms; the time stamps cross a multiple of 65 536 ms.  Every
+    message must carry the generationDeltaTime of its report and the stream must continue after the wrap: a VAM at the
+    latest T_GenVamMax + one report period, a CAM at the latest T_GenCamMax + one check period after the previous one
+    (the fine timing rules are property C10's subject; here only "no stall")."""
+    msg, off, period = args
+    k = (F.BASE_MS - F.ITS_EPOCH_MS + F.LEAP_MS) // 65536 + 1
+    wrap = F.ITS_EPOCH_MS - F.LEAP_MS + k * 65536
+    start = wrap - off
+    end = wrap + WRAP_AFTER_MS
+    bound = (5000 + period) if msg == "vam" else (1000 + 100)
+    w = F.FacWorld(start_ms=start)
+    bad = []
+    rp = dict(call="wrap", msg=msg, off=off, period=period)
+    stamps = []
+    src = []                     # src[i] = time stamp of the latest report delivered before w.sent[i] was generated
+    distinct = set()
+    try:
+        if msg == "vam":
+            w.add_vam()
+        else:
+            w.add_cam()
+            w.start_cam(0)
+        t = start
+        last_report = None
+        while t <= end:
+            w.advance_to(t)                      # checks due at t fire before the report stamped t is delivered
+            src += [last_report] * (len(w.sent) - len(src))
+            tpv = mk_report("ne", t_ms=t)
+            w.report(w.vam_tm if msg == "vam" else w.cam_tm, tpv)
+            last_report = t
+            src += [last_report] * (len(w.sent) - len(src))
+            t += period
+        w.advance_to(end)
+        src += [last_report] * (len(w.sent) - len(src))
+    except Exception as e:  # noqa: BLE001
+        bad.append((dict(kind="generation_raises", msg=msg, exc=type(e).__name__, detail=str(e)[:80], cause_field="wrap", cause_input=off,
+                         period_ms=period), rp))
+    reports = list(range(start, end + 1, period))
+    for i, s_ in enumerate(w.sent):
+        distinct.add(s_.data)
+        stamps.append(s_.ms)
+        try:
+            d = F.coder(msg).decode(s_.data)
+        except Exception as e:  # noqa: BLE001
+            bad.append((dict(kind="undecodable", msg=msg, exc=type(e).__name__, cause_field="wrap", cause_input=off, period_ms=period), rp))
+            continue
+        latest = src[i] if i < len(src) and src[i] is not None else start
+        want = M.generation_delta_time(latest)
+        if d[msg]["generationDeltaTime"] != want:
+            bad.append((dict(kind="value_mismatch", msg=msg, field="generationDeltaTime", got=d[msg]["generationDeltaTime"], expected=[want],
+                             source="time", input=latest, cause_field="wrap", cause_input=off, period_ms=period), rp))
+    prev = start
+    for t in stamps + [end]:
+        if t - prev > bound:
+            bad.append((dict(kind="generation_stalls", msg=msg, gap_ms=t - prev, bound_ms=bound, after_wrap=t > wrap, messages=len(stamps),
+                             cause_field="wrap", cause_input=off, period_ms=period), rp))
+            break
+        prev = t
+    if not any(t > wrap for t in stamps):
+        bad.append((dict(kind="generation_stalls", msg=msg, gap_ms=end - prev, bound_ms=bound, after_wrap=True, messages=len(stamps),
+                         cause_field="wrap", cause_input=off, period_ms=period, none_after_wrap=True), rp))
+    return len(reports), bad, len(distinct)
+
+
+# ------------------------------------------------------------------------------------------------------
 # DENM
 # ------------------------------------------------------------------------------------------------------
 class _DenService:
@@ -929,6 +1003,9 @@ def run(ctx):
         firsts = PH_FIRST if thorough else PH_FIRST[:4]
         jobs = [(b, [f], jumps[i:i + 60]) for b in BASES for f in firsts for i in range(0, len(jumps), 60)]
         drain("path_history", _path_job, jobs)
+        # ---- stationary sequences across the generationDeltaTime wrap ----------------------------------------
+        jobs = [(m, off, per) for m in ("vam", "cam") for off in WRAP_OFFSETS for per in ((100, 1000) if not thorough else (20, 100, 250, 1000))]
+        drain("wrap_continuity", _wrap_job, jobs)
         # ---- DENM ---------------------------------------------------------------------------------------------
         eva = []
         for b in BASES:
@@ -1001,6 +1078,9 @@ def replay(path):
         bad = [x[0] for x in b]
     elif call == "cluster":
         n, b, _ = _cluster_job((rp["phase"], [rp.get("delay_ms", 0)], [rp.get("cluster_id", 7)]))
+        bad = [x[0] for x in b]
+    elif call == "wrap":
+        n, b, _ = _wrap_job((rp["msg"], rp["off"], rp["period"]))
         bad = [x[0] for x in b]
     elif call == "path":
         n, b, _ = _path_job((rp["base"], [tuple(rp["first"])], [tuple(rp["jump"])]))
